@@ -363,10 +363,10 @@ func genAsc(c *Ctx) []byte {
 func genAvCase(c *Ctx, big bool) *tcase {
 	k := &tcase{op: "av", mux: c.Rng.Chance(35)}
 	if c.Rng.Chance(90) {
-		k.sps = append([]byte{0x67}, c.Rng.Bytes(1+c.Rng.Intn(30))...)
+		k.sps = sanitizeNal(append([]byte{0x67}, c.Rng.Bytes(1+c.Rng.Intn(30))...))
 	}
 	if c.Rng.Chance(90) {
-		k.pps = append([]byte{0x68}, c.Rng.Bytes(1+c.Rng.Intn(8))...)
+		k.pps = sanitizeNal(append([]byte{0x68}, c.Rng.Bytes(1+c.Rng.Intn(8))...))
 	}
 	k.ascraw = genAsc(c)
 	n := 1 + c.Rng.Intn(8)
@@ -739,4 +739,18 @@ func countSize(c *Ctx, total int, key, dtsDiffers bool) {
 	} else {
 		c.Count("pts-only")
 	}
+}
+
+// sanitizeNal: a NAL unit never contains 00 00 0x (x <= 3) and never ends in a zero byte
+// (emulation prevention and rbsp trailing bits are the encoder's job)
+func sanitizeNal(b []byte) []byte {
+	for i := 2; i < len(b); i++ {
+		if b[i-2] == 0 && b[i-1] == 0 && b[i] <= 3 {
+			b[i] = 4 + b[i]
+		}
+	}
+	if n := len(b); n > 0 && b[n-1] == 0 {
+		b[n-1] = 0x80
+	}
+	return b
 }
